@@ -1,5 +1,9 @@
 """C09 - tokenisation is lossless, longest-match and position-exact.
 
+(a') every keyword look-alike identifier (case variants of every keyword,
+    keyword+suffix, prefix+keyword, underscore variants) alone and next to
+    every vocabulary token, as a plain identifier and as a typedef name;
+
 (a) every ordered pair of the full vocabulary x separators (incl. the empty
     one; where the concatenation re-lexes differently the expectation is the
     reference lexer's re-tokenisation), triples over a ~40-token vocabulary;
@@ -62,7 +66,11 @@ DIRECTIVE_SHAPES = [("  ", ""), ("\t", ""), (None, " \t")]
 
 
 def _lookup(mode):
-    return lexvocab.is_type if mode == "T" else None
+    if mode == "T":
+        return lexvocab.is_type
+    if mode == "variants":
+        return lexvocab.is_type_variants
+    return None
 
 
 def _build(case):
@@ -255,6 +263,27 @@ def _pair_work(task):
     return _fin_acc(acc, s0)
 
 
+def _kwvar_work(task):
+    """Keyword look-alikes (case variants, keyword+suffix, prefix+keyword): each
+    alone and next to every vocabulary token on either side, with every
+    separator (the empty one pastes), as plain identifiers and registered as
+    typedef names."""
+    firsts, tier = task
+    acc = _new_acc()
+    s0 = (lexref.STATS["chars"], lexref.STATS["items"])
+    seps = lexvocab.SEPARATORS_QUICK if tier == "quick" else lexvocab.SEPARATORS_THOROUGH
+    for v in firsts:
+        for lk in ("T", "variants"):
+            _run_cases(({"tokens": [v], "seps": [s, s], "lookup": lk} for s in seps), acc)
+            _run_cases([{"tokens": [v], "seps": ["", ""], "lookup": lk,
+                         "directives": [[g, f, 0, ""]]} for g in (0, 1) for f in FORMS], acc)
+            pair_seps = seps[:4] if tier == "quick" else seps
+            for b in lexvocab.FULL:
+                _run_cases(({"tokens": t, "seps": ["", s, ""], "lookup": lk}
+                            for s in pair_seps for t in ([v, b], [b, v])), acc)
+    return _fin_acc(acc, s0)
+
+
 def _triple_work(task):
     firsts = task
     acc = _new_acc()
@@ -422,10 +451,18 @@ def run(tier):
     # every vocabulary entry must be one well-formed token for the reference
     for sp in lexvocab.FULL + lexvocab.TRIPLE:
         lexref.token_type(sp, lexvocab.is_type)
+    for sp in lexvocab.KEYWORD_VARIANTS:
+        if lexref.token_type(sp, lexvocab.is_type) != "ID" or \
+                lexref.token_type(sp, lexvocab.is_type_variants) != "TYPEID":
+            raise SystemExit(f"keyword look-alike {sp!r} is not an identifier for the reference")
 
     pair_tasks = [([a], tier) for a in lexvocab.FULL]
     for acc in core.pmap(_pair_work, pair_tasks, chunksize=1):
         merge(acc)
+    pairs_n = tot["n"]
+    for acc in core.pmap(_kwvar_work, [([v], tier) for v in lexvocab.KEYWORD_VARIANTS], chunksize=4):
+        merge(acc)
+    kwvar_n = tot["n"] - pairs_n
     pairs_n = tot["n"]
     triples_n = 0
     if not quick:
@@ -443,7 +480,7 @@ def run(tier):
 
     # vacuity guards
     V = len(lexvocab.FULL)
-    if pairs_n < V * V * (7 + 18 * 4 + 6) or chars_n < 20 ** L:
+    if pairs_n - kwvar_n < V * V * (7 + 18 * 4 + 6) or chars_n < 20 ** L:
         R.fail("vacuous:too-few-cases", {"pairs": pairs_n, "chars": chars_n}, "explored less than the stated bound")
     if len(tot["types"]) < 100 or "TYPEID" not in tot["types"] or "PPPRAGMASTR" not in tot["types"]:
         R.fail("vacuous:comparison-dead", {"types": sorted(tot["types"])}, "too few distinct expected token types")
@@ -457,7 +494,11 @@ def run(tier):
     R.set("distinct_nontrivial", tot["distinct"] + chars_nt)
     R.set("distinct_outcomes", len(tot["outcomes"]))
     R.set("distinct_expected_token_types", len(tot["types"]))
-    R.set("pair_cases", pairs_n)
+    R.set("pair_cases", pairs_n - kwvar_n)
+    R.set("keyword_lookalike_cases", kwvar_n)
+    R.set("keyword_lookalikes", len(lexvocab.KEYWORD_VARIANTS))
+    if kwvar_n < len(lexvocab.KEYWORD_VARIANTS) * len(lexvocab.FULL) * 2 * 2 * 4:
+        R.fail("vacuous:keyword-lookalikes", {"cases": kwvar_n}, "keyword look-alike part not explored")
     R.set("triple_cases", triples_n)
     R.set("cases_with_directives", tot["with_directive"])
     R.set("cases_pasted_retokenised", tot["pasted"])
